@@ -202,15 +202,16 @@ Inductive sty :=
 | STEntity (ty : str)
 | STExt (n : str).
 
-(* serde-derived struct deserialisers used by the untagged enums (from a map with unknown fields
-   ignored, or from a sequence of exactly the fields) *)
+(* serde-derived struct deserialisers used by the untagged enums: a struct VARIANT of an untagged
+   enum is read from a map only (unknown fields ignored); the plain struct TypeAndId is also read
+   from a sequence of exactly its two fields (observed on the implementation: ["T","x"] is accepted
+   where an entity reference is expected, ["1 + 1"] is not an `__expr` escape) *)
 Definition as_string (j : json) : option str := match j with JStr s => Some s | _ => None end.
 
 (* `{ __expr: String }` *)
 Definition is_expr_escape (j : json) : bool :=
   match j with
   | JObj o => match lookup k_expr o with Some (JStr _) => true | _ => false end
-  | JArr [JStr _] => true
   | _ => false
   end.
 
@@ -229,7 +230,6 @@ Definition as_type_and_id (j : json) : option (str * str) :=
 Definition field_of (key : str) (j : json) : option json :=
   match j with
   | JObj o => lookup key o
-  | JArr [x] => Some x
   | _ => None
   end.
 
@@ -267,9 +267,6 @@ Definition as_fn_and_args (j : json) : option (str * list cvj) :=
     end in
   match j with
   | JObj o => from (lookup k_fn o) (lookup k_arg o) (lookup k_args o)
-  | JArr [f; x] =>
-      (* from a sequence: Single reads (fn, arg); Multi reads (fn, args) *)
-      from (Some f) (Some x) (Some x)
   | _ => None
   end.
 
